@@ -251,73 +251,113 @@ def lean_str(s):
 
 
 def translate():
-    raw = {}
+    """item by item: what cannot be read from the source any more is listed in `untranslated` (and taken from the
+    reference tables by the caller), everything else is translated from the source as it is now"""
     files = ["format.rs", "lib.rs", "qualifiers.rs", "package_type.rs", "parse.rs", "builder.rs",
              "qualifiers/well_known.rs", "qualifiers/well_known/gem.rs", "qualifiers/well_known/maven.rs"]
     hashes = {}
     for f in files:
-        r, _ = read(f)
-        hashes[f] = hashlib.sha256(r.encode()).hexdigest()
-    _, fmt = read("format.rs")
-    sets = ascii_sets(fmt)
-    need = ["PURL_PATH", "PURL_PATH_SEGMENT", "PURL_QUERY", "PURL_FRAGMENT"]
-    for n in need:
-        if n not in sets:
-            raise TranslateError("AsciiSet %s not found" % n)
-    # which set is used where in Display
-    dbody = re.sub(r"\s+", "", fmt)
-    uses = re.findall(r"utf8_percent_encode\((\w+)(?:\(\))?,(\w+)\)", dbody)
-    expect_order = ["namespace", "self.name", "version", "k", "v", "subpath"]
-    got = [(a if a != "self" else "self.name") for a, _ in uses]
-    uses = re.findall(r"utf8_percent_encode\(([\w.]+)(?:\(\))?,(\w+)\)", dbody)
-    got = [a for a, _ in uses]
-    if got != expect_order:
-        raise TranslateError("Display uses utf8_percent_encode on %s, expected %s" % (got, expect_order))
-    pos_sets = {"namespace": uses[0][1], "name": uses[1][1], "version": uses[2][1], "qkey": uses[3][1],
-                "qvalue": uses[4][1], "subpath": uses[5][1]}
-    for p, s in pos_sets.items():
-        if s not in sets:
-            raise TranslateError("Display uses unknown set %s" % s)
-    _, lib = read("lib.rs")
-    type_specials = char_slice(lib, "ALLOWED_SPECIAL_CHARS", within="is_valid_package_type")
-    used_chars(lib, "is_valid_package_type", "ALLOWED_SPECIAL_CHARS")
-    _, q = read("qualifiers.rs")
-    key_specials = char_slice(q, "ALLOWED_SPECIAL_CHARS", within="is_valid_qualifier_name")
-    used_chars(q, "is_valid_qualifier_name", "ALLOWED_SPECIAL_CHARS")
-    _, pt = read("package_type.rs")
-    dash = char_slice(pt, "DASH_CHARACTERS", within="fix_pypi_name")
-    variants, phf, names, rename = package_types(pt)
-    _, wk = read("qualifiers/well_known.rs")
-    ck = checksum_key(wk)
-    _, ps = read("parse.rs")
-    sch = scheme(ps)
-    split, join = combined(lib)
-    perr_raw, _ = read("parse.rs")
-    perr = error_texts(strip_doc(perr_raw), "ParseError")
-    if set(perr) != {"UnsupportedUrlScheme", "MissingRequiredField", "InvalidPackageType", "InvalidQualifier", "InvalidEscape"}:
-        raise TranslateError("ParseError variants unexpected: %s" % sorted(perr))
-    pkgerr = error_texts(strip_doc(read("package_type.rs")[0]), "PackageError")
-    if set(pkgerr) != {"MissingRequiredField", "Parse", "UnsupportedType"}:
-        raise TranslateError("PackageError variants unexpected: %s" % sorted(pkgerr))
-    m = re.search(r"#\[error\(\"(.*?)\"\)\]\s*pub\s+struct\s+UnsupportedPackageType", read("package_type.rs")[0])
-    if not m:
-        raise TranslateError("UnsupportedPackageType text not found")
-    unsup = m.group(1)
-    fnames = field_names(ps)
-    for v in variants:
-        if v not in split or v not in join:
-            raise TranslateError("combined-name arms do not cover %s" % v)
-    return {
-        "translated": True,
-        "sets": {p: sorted(sets[s]) for p, s in pos_sets.items()},
-        "setNames": pos_sets,
-        "typeSpecials": type_specials, "keySpecials": key_specials, "dashChars": dash,
-        "variants": variants, "phf": phf, "names": names, "serdeRename": rename,
-        "checksumKey": ck, "knownKeys": known_keys(), "scheme": sch,
-        "combinedSplit": split, "combinedJoin": join,
-        "parseErrorText": perr, "packageErrorText": pkgerr, "unsupportedPackageTypeText": unsup, "fieldNames": fnames,
-        "source": hashes,
-    }
+        try:
+            r, _ = read(f)
+            hashes[f] = hashlib.sha256(r.encode()).hexdigest()
+        except Exception as e:   # noqa
+            hashes[f] = "unreadable: %s" % e
+    out = {"translated": True, "source": hashes}
+    failed = {}
+
+    def attempt(item, fn):
+        try:
+            out.update(fn())
+        except Exception as e:   # noqa: TranslateError or a regex that no longer matches
+            failed[item] = "%s: %s" % (type(e).__name__, e)
+
+    def do_sets():
+        _, fmt = read("format.rs")
+        sets = ascii_sets(fmt)
+        for n in ["PURL_PATH", "PURL_PATH_SEGMENT", "PURL_QUERY", "PURL_FRAGMENT"]:
+            if n not in sets:
+                raise TranslateError("AsciiSet %s not found" % n)
+        dbody = re.sub(r"\s+", "", fmt)
+        uses = re.findall(r"utf8_percent_encode\(([\w.]+)(?:\(\))?,(\w+)\)", dbody)
+        got = [a for a, _ in uses]
+        expect_order = ["namespace", "self.name", "version", "k", "v", "subpath"]
+        if got != expect_order:
+            raise TranslateError("Display uses utf8_percent_encode on %s, expected %s" % (got, expect_order))
+        pos_sets = {"namespace": uses[0][1], "name": uses[1][1], "version": uses[2][1], "qkey": uses[3][1],
+                    "qvalue": uses[4][1], "subpath": uses[5][1]}
+        for p_, s_ in pos_sets.items():
+            if s_ not in sets:
+                raise TranslateError("Display uses unknown set %s" % s_)
+        return {"sets": {p_: sorted(sets[s_]) for p_, s_ in pos_sets.items()}, "setNames": pos_sets}
+
+    def do_type_specials():
+        _, lib = read("lib.rs")
+        v = char_slice(lib, "ALLOWED_SPECIAL_CHARS", within="is_valid_package_type")
+        used_chars(lib, "is_valid_package_type", "ALLOWED_SPECIAL_CHARS")
+        return {"typeSpecials": v}
+
+    def do_key_specials():
+        _, q = read("qualifiers.rs")
+        v = char_slice(q, "ALLOWED_SPECIAL_CHARS", within="is_valid_qualifier_name")
+        used_chars(q, "is_valid_qualifier_name", "ALLOWED_SPECIAL_CHARS")
+        return {"keySpecials": v}
+
+    def do_dash():
+        _, pt = read("package_type.rs")
+        return {"dashChars": char_slice(pt, "DASH_CHARACTERS", within="fix_pypi_name")}
+
+    def do_types():
+        _, pt = read("package_type.rs")
+        variants, phf, names, rename = package_types(pt)
+        return {"variants": variants, "phf": phf, "names": names, "serdeRename": rename}
+
+    def do_keys():
+        _, wk = read("qualifiers/well_known.rs")
+        return {"checksumKey": checksum_key(wk), "knownKeys": known_keys()}
+
+    def do_scheme():
+        _, ps = read("parse.rs")
+        return {"scheme": scheme(ps)}
+
+    def do_combined():
+        _, lib = read("lib.rs")
+        split, join = combined(lib)
+        for v in out.get("variants", []):
+            if v not in split or v not in join:
+                raise TranslateError("combined-name arms do not cover %s" % v)
+        return {"combinedSplit": split, "combinedJoin": join}
+
+    def do_errors():
+        _, ps = read("parse.rs")
+        perr_raw, _ = read("parse.rs")
+        perr = error_texts(strip_doc(perr_raw), "ParseError")
+        if set(perr) != {"UnsupportedUrlScheme", "MissingRequiredField", "InvalidPackageType", "InvalidQualifier", "InvalidEscape"}:
+            raise TranslateError("ParseError variants unexpected: %s" % sorted(perr))
+        pkgerr = error_texts(strip_doc(read("package_type.rs")[0]), "PackageError")
+        if set(pkgerr) != {"MissingRequiredField", "Parse", "UnsupportedType"}:
+            raise TranslateError("PackageError variants unexpected: %s" % sorted(pkgerr))
+        m = re.search(r"#\[error\(\"(.*?)\"\)\]\s*pub\s+struct\s+UnsupportedPackageType", read("package_type.rs")[0])
+        if not m:
+            raise TranslateError("UnsupportedPackageType text not found")
+        return {"parseErrorText": perr, "packageErrorText": pkgerr, "unsupportedPackageTypeText": m.group(1), "fieldNames": field_names(ps)}
+
+    attempt("sets", do_sets)
+    attempt("typeSpecials", do_type_specials)
+    attempt("keySpecials", do_key_specials)
+    attempt("dashChars", do_dash)
+    attempt("types", do_types)
+    attempt("keys", do_keys)
+    attempt("scheme", do_scheme)
+    attempt("combined", do_combined)
+    attempt("errors", do_errors)
+    out["untranslated"] = failed
+    return out
+
+
+ITEM_KEYS = {"sets": ["sets", "setNames"], "typeSpecials": ["typeSpecials"], "keySpecials": ["keySpecials"], "dashChars": ["dashChars"],
+             "types": ["variants", "phf", "names", "serdeRename"], "keys": ["checksumKey", "knownKeys"], "scheme": ["scheme"],
+             "combined": ["combinedSplit", "combinedJoin"],
+             "errors": ["parseErrorText", "packageErrorText", "unsupportedPackageTypeText", "fieldNames"]}
 
 
 def emit_lean(t):
@@ -421,21 +461,33 @@ def main():
     ap.add_argument("--json", default="/verif/build/tables.json")
     ap.add_argument("--from-json", help="emit Lean from an (observed) tables.json instead of translating")
     a = ap.parse_args()
+    rc = 0
     if a.from_json:
         with open(a.from_json) as f:
             t = json.load(f)
     else:
-        try:
-            t = translate()
-        except TranslateError as e:
-            print("translate: cannot translate: %s" % e, file=sys.stderr)
-            sys.exit(2)
+        t = translate()
+        if t["untranslated"]:
+            # fill what could not be read from the reference tables; the caller decides what that means
+            ref_path = os.path.join(os.path.dirname(os.path.abspath(__file__)), "tables.ref.json")
+            try:
+                with open(ref_path) as f:
+                    ref = json.load(f)
+            except (OSError, ValueError) as e:
+                print("translate: cannot translate %s and no reference tables: %s" % (sorted(t["untranslated"]), e), file=sys.stderr)
+                sys.exit(2)
+            for item in t["untranslated"]:
+                for k in ITEM_KEYS[item]:
+                    t[k] = ref[k]
+            print("translate: PARTIAL, could not read from the source: %s" % json.dumps(t["untranslated"]), file=sys.stderr)
+            rc = 3
     lean = fix_phf_commas(emit_lean(t))
     changed = write_if_changed(os.path.join(a.lean, "PurlModel", "Generated", "Tables.lean"), lean)
     os.makedirs(os.path.dirname(a.json), exist_ok=True)
     with open(a.json, "w") as f:
         json.dump(t, f, indent=1, sort_keys=True)
-    print("translate: ok (Tables.lean %s)" % ("rewritten" if changed else "unchanged"))
+    print("translate: %s (Tables.lean %s)" % ("ok" if rc == 0 else "partial", "rewritten" if changed else "unchanged"))
+    sys.exit(rc)
 
 
 if __name__ == "__main__":
